@@ -38,6 +38,17 @@ def main(argv=None):
     except HarnessError as e:
         print("HARNESS-ERROR property=%s %s" % (prop, e))
         return 2
+    # every task of the thorough tier is cut after XMC_TASK_CAP seconds (default 600); a cut is reported in the
+    # evidence (exhaustive: false, caps_hit) - it never turns into a verdict
+    cap = float(os.environ.get("XMC_TASK_CAP", "600" if tier == "thorough" else "0") or 0)
+    # ... and the whole check has a wall-clock budget (XMC_BUDGET seconds, default 1500 for thorough, none for
+    # quick): when it is used up every running enumeration stops after its current execution
+    budget = float(os.environ.get("XMC_BUDGET", "1500" if tier == "thorough" else "0") or 0)
+    for t in tasks:
+        if cap > 0:
+            t.setdefault("time_cap", cap)
+        if budget > 0:
+            t["deadline_abs"] = t0 + budget
     all_tasks = list(tasks)
     if a.only:
         tasks = [t for t in tasks if a.only in t.get("label", "")]
